@@ -313,3 +313,95 @@ Example C01_example_recycle :
   phases_of 1 (rev (log (fst c2))) = [PEnter 0; PExit 0] /\
   mon_ok 2 c2 = true.
 Proof. vm_compute. repeat split. Qed.
+
+(* ------------------------------------------------------------------------------------------
+   Round p13a: the conversion batch loop thread_queue::add_new / thread_queue_mc::add_new
+   (Model/AddNewBatch.v interprets the loop shape regenerated into Gen/GenAddNew.v: operand
+   order of `while (add_count-- && addfrom->Q.pop(task, steal))`, post-decrement, early-return
+   guard, counter updates of the body in source order). *)
+From Coq Require Import ZArith.
+From Pika Require Gen.GenAddNew Model.AddNewBatch Proofs.AddNewBatchProofs.
+
+(* For BOTH regenerated loops, every description type, every staged list, pending list and
+   budget (negative = no budget), with new_tasks_count_ = |staged| at the call: exactly
+   n = min(budget, |staged|) descriptions (all when budget < 0) move to the back of the pending
+   queue in order, the staged queue keeps the rest, nothing is dropped or duplicated
+   (pending' ++ staged' = pending ++ staged), new_tasks_count_ = |staged'| again, the return
+   value is n and the n new threads are in the thread map. *)
+Theorem C01_add_new_batch_conserves :
+  forall (D : Type) (sh : GenAddNew.add_new_shape),
+    sh = GenAddNew.tq_add_new \/ sh = GenAddNew.mc_add_new ->
+    forall (budget : Z) (staged : list D) (s : AddNewBatch.bst D),
+      AddNewBatch.b_count s = Z.of_nat (length staged) ->
+      let n := AddNewBatch.batch_size budget (length staged) in
+      let r := AddNewBatch.add_new sh budget staged s in
+      fst r = skipn n staged /\
+      AddNewBatch.b_pending (snd r) = AddNewBatch.b_pending s ++ firstn n staged /\
+      AddNewBatch.b_pending (snd r) ++ fst r = AddNewBatch.b_pending s ++ staged /\
+      AddNewBatch.b_count (snd r) = Z.of_nat (length (fst r)) /\
+      AddNewBatch.b_added (snd r) = n /\
+      AddNewBatch.b_map (snd r) = rev (firstn n staged) ++ AddNewBatch.b_map s.
+Proof. exact (@AddNewBatchProofs.add_new_batch_conserves). Qed.
+Print Assumptions C01_add_new_batch_conserves.
+
+(* Without the counter hypothesis (new_tasks_count_ is incremented after the push, so it may
+   lag): nothing is dropped, duplicated or reordered, the offset between the counter and the
+   staged queue is unchanged and the return value is the number of decrements. *)
+Theorem C01_add_new_batch_never_drops :
+  forall (D : Type) (sh : GenAddNew.add_new_shape),
+    sh = GenAddNew.tq_add_new \/ sh = GenAddNew.mc_add_new ->
+    forall (budget : Z) (staged : list D) (s : AddNewBatch.bst D),
+      let r := AddNewBatch.add_new sh budget staged s in
+      AddNewBatch.b_pending (snd r) ++ fst r = AddNewBatch.b_pending s ++ staged /\
+      (AddNewBatch.b_count (snd r) - Z.of_nat (length (fst r)) =
+        AddNewBatch.b_count s - Z.of_nat (length staged))%Z /\
+      (Z.of_nat (AddNewBatch.b_added (snd r)) = AddNewBatch.b_count s - AddNewBatch.b_count (snd r))%Z.
+Proof. exact (@AddNewBatchProofs.add_new_batch_never_drops). Qed.
+Print Assumptions C01_add_new_batch_never_drops.
+
+(* The other operand order (`while (addfrom->Q.pop(task, steal) && add_count--)`, everything else
+   as regenerated): with budget 2 and three staged descriptions the third is popped and then
+   dropped — it is in neither queue afterwards and new_tasks_count_ still counts it. *)
+Theorem C01_add_new_pop_then_budget_drops_refuted :
+  forall (sh : GenAddNew.add_new_shape),
+    sh = GenAddNew.tq_add_new \/ sh = GenAddNew.mc_add_new ->
+    exists (budget : Z) (staged : list nat) (s : AddNewBatch.bst nat),
+      AddNewBatch.b_count s = Z.of_nat (length staged) /\
+      (0 <= budget < Z.of_nat (length staged))%Z /\
+      let r := AddNewBatch.add_new (AddNewBatch.swap_order sh) budget staged s in
+      fst r = [] /\ AddNewBatch.b_pending (snd r) = [1; 2] /\
+      In 3 (AddNewBatch.b_pending s ++ staged) /\
+      ~ In 3 (AddNewBatch.b_pending (snd r) ++ fst r) /\
+      AddNewBatch.b_count (snd r) = 1%Z /\ AddNewBatch.b_added (snd r) = 2.
+Proof. exact AddNewBatchProofs.add_new_pop_then_budget_drops. Qed.
+Print Assumptions C01_add_new_pop_then_budget_drops_refuted.
+
+(* ... and that is what every call with 0 < budget < |staged| does with that operand order:
+   exactly one description (the one after the budgeted n) is lost and new_tasks_count_ stays one
+   too high (the runtime signature of seed c01d: staged count stuck, tasks that never run). *)
+Theorem C01_add_new_pop_then_budget_loses_one :
+  forall (D : Type) (sh : GenAddNew.add_new_shape),
+    sh = GenAddNew.tq_add_new \/ sh = GenAddNew.mc_add_new ->
+    forall (budget : Z) (staged : list D) (s : AddNewBatch.bst D),
+      AddNewBatch.b_count s = Z.of_nat (length staged) ->
+      (0 < budget < Z.of_nat (length staged))%Z ->
+      let n := Z.to_nat budget in
+      let r := AddNewBatch.add_new (AddNewBatch.swap_order sh) budget staged s in
+      fst r = skipn (S n) staged /\
+      AddNewBatch.b_pending (snd r) = AddNewBatch.b_pending s ++ firstn n staged /\
+      S (length (AddNewBatch.b_pending (snd r) ++ fst r)) = length (AddNewBatch.b_pending s ++ staged) /\
+      AddNewBatch.b_count (snd r) = (Z.of_nat (length (fst r)) + 1)%Z.
+Proof. exact (@AddNewBatchProofs.add_new_pop_then_budget_loses_one). Qed.
+Print Assumptions C01_add_new_pop_then_budget_loses_one.
+
+(* non-vacuity: a batch of 64 out of 70 staged descriptions through thread_queue_mc::add_new, and
+   an unbudgeted (-1) batch through thread_queue::add_new *)
+Example C01_example_add_new_batch :
+  let s := AddNewBatch.mkB [100; 101] 70%Z [] 0%Z 0 None in
+  let r := AddNewBatch.add_new GenAddNew.mc_add_new 64%Z (seq 0 70) s in
+  AddNewBatch.b_pending (snd r) = [100; 101] ++ seq 0 64 /\ fst r = seq 64 6 /\
+  AddNewBatch.b_count (snd r) = 6%Z /\ AddNewBatch.b_added (snd r) = 64 /\
+  let r2 := AddNewBatch.add_new GenAddNew.tq_add_new (-1)%Z (seq 0 70) s in
+  AddNewBatch.b_pending (snd r2) = [100; 101] ++ seq 0 70 /\ fst r2 = [] /\
+  AddNewBatch.b_count (snd r2) = 0%Z /\ AddNewBatch.b_mapcount (snd r2) = 70%Z.
+Proof. vm_compute. repeat split. Qed.
